@@ -9,7 +9,7 @@ COQ_MODEL = "run_c16"
 COQ_OK = "(ok_spec spec_c16)"
 COQ_INPUT_TYPE = "list (option string * parsed) * (option string * parsed) * (option string * parsed)"
 SHARD = 6
-RULE = ("each document in 4 namespace spellings (prefix xtce, another prefix, default namespace, none) x comment / whitespace placements "
+RULE = ("each document in 5 namespace spellings (prefix xtce, prefix x, default namespace, none, and a prefix drawn from a pool that includes beginnings of XTCE element names: Unit, Long, T, P, C, S, E, H) x comment / whitespace placements "
         "between the children of EVERY element, loaded after random sequences of other renderings (other namespace conventions), "
         "documents that fail after parsing and malformed XML, in one process; compared with the plain rendering loaded first; "
         "distinct = distinct (document, spelling, decoration, history)")
@@ -48,14 +48,14 @@ def gen(rng, tier):
     for i, doc in enumerate(docs_):
         plain_ns = ("prefix", "xtce")
         plain = xmlgen.document_xml(doc, plain_ns)
-        for ns in SPELLINGS:
+        for ns in SPELLINGS + [defgen.rnd_prefix(rng)]:
             mode = rng.choice(["none", "ws", "comments", "comments"])
             variant = xmlgen.document_xml(doc, ns, deco=mk_deco(rng, mode))
             hist = []
             for _h in range(rng.choice([0, 1, 2, 3])):
                 r = rng.random()
                 other = rng.choice(docs_)
-                ons = rng.choice(SPELLINGS)
+                ons = rng.choice(SPELLINGS + [defgen.rnd_prefix(rng)])
                 if r < 0.6:
                     hist.append({"xml": xmlgen.document_xml(other, ons), "prefix": prefix_of(ons)})
                 elif r < 0.8:   # fails after parsing (dangling type reference)
